@@ -76,24 +76,15 @@ Definition spec_out (i : cinput) : option (list (string * list N)) :=
   end.
 
 (* ---- known classes, INPUT only ---- *)
-(* K1: rest parameter present and a named argument names a parameter that is also bound by position:
-   the keyword silently lands in the rest parameter's keywords *)
-Definition known_K1 (s : sigT) (c : callT) : bool :=
-  match s_rest s with
-  | Some _ => existsb (fun p => has_name (all_named c) (fst p)) (firstn (length (all_positional c)) (s_params s))
-  | None => false
-  end.
-(* K2: a map-splat entry repeats the name of an explicit named argument (or of another entry, up to -/_):
-   add_from_value_map silently overrides instead of reporting a duplicate *)
-Definition known_K2 (c : callT) : bool :=
-  negb (dup_names (checked_named c)) && dup_names (all_named c).
+(* (classes 1 and 2 - keyword repeating a positionally bound parameter with a rest parameter, map-splat entry
+   repeating a keyword - were fixed by 09ccabb and 5cd805f) *)
 (* K3: the lone left-over keyword is named like the rest parameter: the rest parameter becomes that value *)
 Definition known_K3 (s : sigT) (c : callT) : bool :=
   match model_bind s c with BOk _ (Some (RValue _)) => true | _ => false end.
 
 Definition known_class (i : cinput) : Z :=
   match i with
-  | CBind s c => if known_K2 c then 2 else if known_K1 s c then 1 else if known_K3 s c then 3 else 0
+  | CBind s c => if known_K3 s c then 3 else 0
   | CRet _ => 0
   end%Z.
 
